@@ -457,6 +457,9 @@ func ExecRun(t *testing.T, prop string, st Stratum, stIdx int, tape *simrt.Tape,
 	if res.StepsOut && res.HarnessErr == "" {
 		r.Probes["steps-exhausted"]++
 	}
+	if s.PreHits > 0 {
+		r.Probes["preemptions-fired"] += s.PreHits
+	}
 	res.Viol = r.viol
 	res.Probes = r.Probes
 	res.Faults = r.Faults
